@@ -52,7 +52,17 @@ def run(ctx: Ctx) -> None:
     ctx.note("dry_runs_observed", ndry)
     ctx.note("dry_then_real_pairs", npred)
     ctx.require(ndry >= 10 and npred >= 5, f"too few dry runs explored ({ndry}, {npred})")
+    # the same clauses through a sub-scheduler: real run, dry run, real run of subrun(sv(1)) on one backend
+    from . import c38
+
+    for ne in (0, 1):
+        c38.dry_history(ctx, ne, f"c28d{ne}")
 
 
 def replay(ctx: Ctx, rec: dict) -> None:
+    if "history" in rec["replay"]:
+        from . import c38
+
+        c38.dry_history(ctx, rec["replay"]["newexec"], "replay")
+        return
     schedlab.replay_record(ctx, rec, ON)
